@@ -251,8 +251,11 @@ def build_items(cases, run=None):
         else:
             tmax = c["t_max"] if c["t_max"] is not None else c["t_sample"][-1]
             h = o["handed"]
-            if (h["dt"], h["t_sample"], h["t_max"], h["interval"]) != (c["dt"], c["t_sample"], tmax, c["interval"]):
-                # the package converted a time quantity inexactly: outside what this generator promises; counted, not judged
+            got = [h["dt"], h["t_max"], h["interval"]] + list(h["t_sample"])
+            want = [c["dt"], tmax, c["interval"]] + list(c["t_sample"])
+            if got != want and len(got) == len(want) and all(abs(a - b) <= 1e-9 * (abs(a) + abs(b)) for a, b in zip(got, want)):
+                # the package converted a time quantity inexactly (last bits): outside what this generator promises; counted, not judged.
+                # Anything further off (a time in the wrong unit, a dropped request) stays in and is judged against the script as stated
                 if run:
                     run.count("discarded_inexact_conversion")
                 continue
